@@ -135,55 +135,72 @@ def _int(e):
 
 
 def rule_b(chk, f, enc):
-    # encoder: if/elif chain on data_length
+    """Length tables by finite evaluation (sa/concrete.py): the classification code of encoder and decoder is interpreted on sample
+    lengths / length codes, so the spelling of the if-chains does not matter."""
+    from sa import concrete
+    # --- encoder: which names hold the length byte and the number of extension bytes?
     lv = None
     for n in walk_no_defs(enc.node):
         if isinstance(n, ast.Assign) and src(n.value) == f'len({enc.params[1]})':
             lv = src(n.targets[0])
     need(lv, 'C17.b: encoder does not take len(data)')
-    table = []
-    node = None
-    for n in walk_no_defs(enc.node):
-        if isinstance(n, ast.If) and isinstance(n.test, ast.Compare) and src(n.test.left) == lv:
-            node = n
+    genc0 = enc.cfg()
+    first_app = None
+    for n in sorted((n for n in genc0.nodes if n.kind == 'stmt'), key=lambda n: n.lineno):
+        cs = [c for r, c in pat.method_calls(n.ast, 'append') if c.args and isinstance(c.args[0], ast.Name)]
+        if cs and not any(k == 'loop' for k, _a in n.ctx):
+            first_app = (n, cs[0].args[0].id)
             break
-    need(node, 'C17.b: encoder has no length classification')
-    cur = node
-    while cur is not None:
-        bound = _int(cur.test.comparators[0]) if isinstance(cur.test.ops[0], ast.LtE) else (
-            _int(cur.test.comparators[0]) - 1 if isinstance(cur.test.ops[0], ast.Lt) and _int(cur.test.comparators[0]) is not None else None)
-        vals = {src(s.targets[0]): s.value for s in cur.body if isinstance(s, ast.Assign)}
-        table.append((bound, vals))
-        if len(cur.orelse) == 1 and isinstance(cur.orelse[0], ast.If):
-            cur = cur.orelse[0]
-        else:
-            vals = {src(s.targets[0]): s.value for s in cur.orelse if isinstance(s, ast.Assign)}
-            table.append((None, vals))
-            cur = None
-    codev = [k for k in table[0][1] if src(table[0][1][k]) == lv]
-    need(codev and len(table) == 3, f'C17.b: encoder table has {len(table)} rows, 3 expected')
-    codev = codev[0]
-    nbv = [k for k in table[0][1] if k != codev][0]
-    e_rows = [(b, (_int(v[codev]) if src(v[codev]) != lv else 'len'), _int(v[nbv])) for b, v in table]
-    # decoder
+    need(first_app, 'C17.b: encoder never appends its length byte')
+    app_node, codev = first_app
+    nbv = None
+    for n in walk_no_defs(enc.node):
+        if isinstance(n, ast.For) and isinstance(n.iter, ast.Call) and call_name(n.iter) == 'range' and n.iter.args:
+            m_ = [w.id for w in ast.walk(n.iter.args[0]) if isinstance(w, ast.Name)]
+            if m_:
+                nbv = m_[0]
+    need(nbv, 'C17.b: encoder has no loop over the extension bytes')
+    node = app_node.ast
+    e_tab = {}
+    for L in (0, 1, 125, 126, 127, 65535, 65536, 1 << 24):
+        for masked in (False, True):
+            env, _at = concrete.run(enc, {enc.params[1]: concrete.Sized(L), enc.params[2]: masked}, stop=lambda n, _e: n is app_node)
+            e_tab[(L, masked)] = (env.get(codev), env.get(nbv))
+    want = {}
+    for L in (0, 1, 125, 126, 127, 65535, 65536, 1 << 24):
+        code, nb = (L, 0) if L <= 125 else ((126, 2) if L <= 65535 else (127, 8))
+        want[(L, False)] = (code, nb)
+        want[(L, True)] = (code | 128, nb)
+    bad = {k: (e_tab[k], want[k]) for k in want if e_tab[k] != want[k]}
+    chk.ob('b', enc.ref, 'encoder: 7-bit form up to 125, 16-bit form (code 126, 2 bytes) up to 65535, else 64-bit form (code 127, 8 bytes); mask flag = high bit '
+                         '(evaluated on 8 sample lengths × masked/unmasked)', not bad, loc(enc, node), detail=f'(length, masked): (got, expected) {bad}' if bad else
+           f'{len(want)} samples agree', discr='encoder-table')
+    # --- decoder: how many extension bytes does it read for each length code?
     g = f.cfg()
-    thr = None
-    ifexp = None
+    plv = None
     for n in walk_no_defs(f.node):
-        if isinstance(n, ast.If) and isinstance(n.test, ast.Compare) and src(n.test.left) == 'payload_length' and isinstance(n.test.ops[0], (ast.GtE, ast.Gt)):
-            thr = _int(n.test.comparators[0]) + (1 if isinstance(n.test.ops[0], ast.Gt) else 0)
-            for s in n.body:
-                if isinstance(s, ast.Assign) and isinstance(s.value, ast.IfExp):
-                    ifexp = s.value
-    need(thr is not None and ifexp is not None, 'C17.b: decoder has no extended-length classification')
-    d_code = _int(ifexp.test.comparators[0]) if isinstance(ifexp.test, ast.Compare) and isinstance(ifexp.test.ops[0], ast.Eq) else None
-    d_rows = {'short-max': thr - 1, 'code-a': d_code, 'bytes-a': _int(ifexp.body), 'bytes-else': _int(ifexp.orelse)}
-    exp = {'short-max': e_rows[0][0], 'code-a': e_rows[1][1], 'bytes-a': e_rows[1][2], 'bytes-else': e_rows[2][2]}
-    for k in exp:
-        chk.ob('b', f.ref, f'length table entry {k}: decoder agrees with encoder', d_rows[k] == exp[k], loc(f, ifexp), detail=f'encoder {exp[k]}, decoder {d_rows[k]}',
-               discr=f'table:{k}')
-    chk.ob('b', enc.ref, 'encoder: 7-bit form up to 125, 16-bit form (code 126, 2 bytes) up to 65535, else 64-bit form (code 127, 8 bytes)',
-           e_rows == [(125, 'len', 0), (65535, 126, 2), (None, 127, 8)], loc(enc, node), detail=f'{e_rows}', discr='encoder-table')
+        if isinstance(n, ast.Assign) and isinstance(n.targets[0], ast.Name) and src(n.value).replace(' ', '') in ('data[1]&127', 'data[1]&0x7f', 'data[1]&0x7F'):
+            plv = n.targets[0].id
+    need(plv, 'C17.b: decoder does not extract the 7-bit length code')
+    cls_tests = [n for n in g.nodes if n.kind == 'test' and plv in Q.names_used(n.ast) and isinstance(n.ast, ast.Compare) and
+                 any(isinstance(c, ast.Constant) and c.value in (125, 126, 127) for c in n.ast.comparators + [n.ast.left])]
+    need(cls_tests, 'C17.b: decoder has no extended-length classification')
+    start = sorted(cls_tests, key=lambda n: n.lineno)[0]
+    d_tab = {}
+    for code in (0, 125, 126, 127):
+        env, _at = concrete.run(f, {plv: code}, start=start)
+        ints = {k: v for k, v in env.items() if isinstance(v, int) and not isinstance(v, bool) and k != plv}
+        d_tab[code] = ints
+    # the name that holds the number of extension bytes: 2 for code 126 and 8 for code 127
+    nbd = [k for k, v in d_tab[126].items() if v == 2 and d_tab[127].get(k) == 8]
+    ok_d = bool(nbd) and all(nbd[0] not in d_tab[c] or d_tab[c][nbd[0]] == 0 for c in (0, 125))
+    ifexp = start.ast
+    for k_, exp_ in (('short-max', 125), ('code-a', 126), ('bytes-a', 2), ('bytes-else', 8)):
+        got = {'short-max': 125 if (nbd and not (nbd[0] in d_tab[125] and d_tab[125][nbd[0]])) else None,
+               'code-a': 126 if (nbd and d_tab[126].get(nbd[0]) == 2) else None,
+               'bytes-a': d_tab[126].get(nbd[0]) if nbd else None, 'bytes-else': d_tab[127].get(nbd[0]) if nbd else None}[k_]
+        chk.ob('b', f.ref, f'length table entry {k_}: decoder agrees with encoder', got == exp_ and ok_d, loc(f, ifexp), detail=f'encoder {exp_}, decoder {got}',
+               discr=f'table:{k_}')
     # big-endian accumulation in the decoder, big-endian emission in the encoder
     acc = [n for n in walk_no_defs(f.node) if isinstance(n, ast.Assign) and src(n.targets[0]) == 'payload_length' and
            src(n.value).replace(' ', '') in ('payload_length*256+data[offset]', '(payload_length<<8)+data[offset]', 'payload_length<<8|data[offset]')]
